@@ -1,2 +1,5 @@
 pub mod leafattacks;
 pub mod leafdrv;
+pub mod privprops;
+pub mod pubprops;
+pub mod gadgetprops;
